@@ -167,8 +167,29 @@ class SStr(Sym):
             return False
         return builtins.bool(SBool(z3.And([_z(a) == _z(b) for a, b in zip(self.c[len(self.c) - len(pc):], pc)] + [z3.BoolVal(True)])))
 
-    def strip(self, *a):
-        raise NotImplementedError("strip on symbolic string")
+    def _is_ws(self, ch):
+        if isinstance(ch, builtins.int):
+            return chr(ch).isspace()
+        return ENG.branch(z3.Or(ch == 32, z3.And(ch >= 9, ch <= 13)))
+
+    def strip(self, chars=None):
+        return self.lstrip(chars).rstrip(chars) if isinstance(self.lstrip(chars), SStr) else self.lstrip(chars).strip(chars)
+
+    def lstrip(self, chars=None):
+        if chars is not None:
+            raise NotImplementedError("strip(chars) on symbolic string")
+        i = 0
+        while i < len(self.c) and self._is_ws(self.c[i]):
+            i += 1
+        return mk(self.c[i:])
+
+    def rstrip(self, chars=None):
+        if chars is not None:
+            raise NotImplementedError("strip(chars) on symbolic string")
+        j = len(self.c)
+        while j > 0 and self._is_ws(self.c[j - 1]):
+            j -= 1
+        return mk(self.c[:j])
 
     def concretize(self, model):
         return "".join(chr(model.eval(_z(ch), model_completion=True).as_long()) for ch in self.c)
